@@ -83,8 +83,12 @@ impl V<'_> {
         probe: bool,
     ) {
         for f in findings {
+            // only a finding AT the faulty step keeps its bare key (and with it the chance of
+            // being a listed one); anything on a valid step before or after it is something else
             let key = if failing_step > fault_at || probe {
                 format!("after-fault/{}", f.key)
+            } else if failing_step < fault_at {
+                format!("valid-step-before-fault/{}", f.key)
             } else {
                 f.key.clone()
             };
@@ -254,6 +258,51 @@ impl Visitor for V<'_> {
     }
 }
 
+/// Canary for the listed keys: the same panic words elsewhere, or a panic at the listed site
+/// for an answer that MATCHES its request, must not come out under a listed key.
+fn key_canary() -> bool {
+    use crate::faultsys::{listed_cause, narrowed_panic_key};
+    use crate::sys::{panic_key, Kind, Op};
+    let kv_site = mc_kit::PanicInfo {
+        message: "attempt to convert KeyValueResponse other than Set to Option<Vec<u8>>".into(),
+        file: "/repo/crux_kv/src/lib.rs".into(),
+        line: 1,
+    };
+    let elsewhere = mc_kit::PanicInfo {
+        file: "/repo/crux_core/src/bridge/mod.rs".into(),
+        ..kv_site.clone()
+    };
+    let other_msg = mc_kit::PanicInfo {
+        message: "index out of bounds".into(),
+        ..kv_site.clone()
+    };
+    let set = Op::Kv(crux_kv::KeyValueOperation::Set {
+        key: "k".into(),
+        value: vec![],
+    });
+    let matching = Resp::Kv(crux_kv::KeyValueResult::Ok {
+        response: crux_kv::KeyValueResponse::Set {
+            previous: crux_kv::value::Value::None,
+        },
+    });
+    let mismatching = Resp::Kv(crux_kv::KeyValueResult::Ok {
+        response: crux_kv::KeyValueResponse::Get {
+            value: crux_kv::value::Value::None,
+        },
+    });
+    panic_key(&kv_site) == "kv/response-kind-mismatch"
+        && panic_key(&elsewhere) != "kv/response-kind-mismatch"
+        && panic_key(&other_msg) != "kv/response-kind-mismatch"
+        && listed_cause(&set, Kind::Once, &matching).is_none()
+        && listed_cause(&set, Kind::Once, &mismatching) == Some("kv/response-kind-mismatch")
+        && narrowed_panic_key(&kv_site, listed_cause(&set, Kind::Once, &matching))
+            != "kv/response-kind-mismatch"
+        && narrowed_panic_key(&kv_site, listed_cause(&set, Kind::Once, &mismatching))
+            == "kv/response-kind-mismatch"
+        && narrowed_panic_key(&kv_site, Some("time/response-kind-mismatch"))
+            != "kv/response-kind-mismatch"
+}
+
 /// Canary: a harness-side "bridge" that applies the event before rejecting it must be noticed
 /// by the fingerprint comparison. Emulated by comparing fingerprints across a valid event.
 fn canary() -> bool {
@@ -268,6 +317,9 @@ pub fn run(tier: Tier, args: &[String]) -> i32 {
     let rep = Reporter::new("C12", tier);
     if !canary() {
         mc_kit::machinery_error("C12 canary: the state fingerprint does not see a render");
+    }
+    if !key_canary() {
+        mc_kit::machinery_error("C12 canary: a listed panic key is assigned too broadly");
     }
     crate::watch::start_monitor("C12");
     let depth: usize = mc_kit::arg_value(args, "--depth")
